@@ -32,9 +32,10 @@ pub fn synth(sig: &t::Signature, response: bool, thorough: bool) -> Result<Vec<I
             Some(m) => vec![Some(m)],
             None => {
                 if thorough {
-                    vec![Some(1460), Some(536), Some(1380), Some(8960), Some(1220), Some(1400), Some(1440), Some(1452), Some(65495)]
+                    vec![Some(1460), Some(536), Some(1380), Some(8960), Some(1220), Some(1400), Some(1440), Some(1452), Some(65495), Some(64), Some(88), Some(99), Some(100)]
                 } else {
-                    vec![Some(1460), Some(536), Some(1380), Some(8960)]
+                    // incl. tiny MSS values: below 100 the extractor reports the window raw, and `mss*N` must still match
+                    vec![Some(1460), Some(536), Some(1380), Some(8960), Some(88), Some(99)]
                 }
             }
         }
@@ -609,7 +610,7 @@ pub fn run(thorough: bool) -> Outcome {
         report: r,
         rule: "for each of the bundled TCP and HTTP signatures: every synthesised conforming packet/message (IPv4/IPv6 as allowed, all hop counts 0..30, MSS alphabet, window realisations of the form, scale, every encoding of each quirk, payload class; HTTP/1.0/1.1, every subset of <=6 optional headers, software string equal to and containing the token) through the packet-level analyzers with the bundled database; distinct = distinct (table, own label, reported label) outcomes".into(),
         exhaustive: true,
-        bounds: json!({"hop_counts": "0..=30 (random-TTL form: every TTL up to the maximum)", "mss_alphabet": if thorough {9} else {4}}),
+        bounds: json!({"hop_counts": "0..=30 (random-TTL form: every TTL up to the maximum)", "mss_alphabet": if thorough {13} else {6}}),
     }
 }
 
